@@ -226,7 +226,20 @@ fn observe_cmd(args: &[String]) {
                     let name = names[r.below(names.len())].to_string();
                     let inst: Vec<&Op> = all.iter().filter(|o| o.op == name).collect();
                     // (of four instances drawn, the one whose argument nodes have the most to lose: children, attributes, declarations)
-                    let weight = |o: &Op| -> usize { o.a.iter().map(|i| (w.xot.children(w.h(*i)).count() + w.xot.axis(xot::Axis::Attribute, w.h(*i)).count() + 2 * w.xot.namespace_declarations(w.h(*i)).len()) + usize::from(w.xot.previous_sibling(w.h(*i)).is_some())).sum() };
+                    let rich = |i: usize| -> usize {
+                        let h = w.h(i);
+                        w.xot.children(h).count() + 2 * w.xot.axis(xot::Axis::Attribute, h).count() + 2 * w.xot.namespace_declarations(h).len()
+                            + usize::from(w.xot.previous_sibling(h).is_some())
+                    };
+                    // (a call on two different nodes, the second one movable, counts for more than a call that must be refused)
+                    let weight = |o: &Op| -> usize {
+                        let first = o.a.first().map(|i| rich(*i)).unwrap_or(0);
+                        match o.a.get(1) {
+                            Some(second) if o.a[0] == *second => 0,
+                            Some(second) => first + 3 + usize::from(!w.xot.ancestors(w.h(o.a[0])).any(|n| n == w.h(*second))) * 3,
+                            None => first,
+                        }
+                    };
                     let mut pick: &Op = inst[r.below(inst.len())];
                     for _ in 0..3 {
                         let other: &Op = inst[r.below(inst.len())];
